@@ -2,11 +2,14 @@
    capacity >= 8 — the back-end behind Parser::new_from_iter and Yaml::load_from_str — through the value-level
    back-end agreement of C10 (ScanRelAll.pipeline_backends_agree_total: run_str x = run_buf cap x unless the buffered
    run exhausts its fuel; bounded work is proved for the string instance only, so that one escape stays in the
-   hypotheses and is monitored by the correspondence run: MODELFUEL). *)
+   hypotheses and is monitored by the correspondence run: MODELFUEL).
+   UPDATE: bounded work is now proved for the buffered instance too (ScanFuelBufAll.pipeline_backends_equal:
+   run_buf cap x = run_str x for every capacity >= 8 and every input); the [_total] theorems at the end of this file
+   are the same transfers WITHOUT the fuel hypotheses. *)
 From Coq Require Import List NArith Bool Lia.
 Import ListNotations.
 Require Import Parser SBase SBuf SFetch Pipe Positions PosProofs.
-Require Import ScanPos ScanPosTop ScanRelAll BreakProofs ScanBrk ScanBrkParse ScanBrkAll.
+Require Import ScanPos ScanPosTop ScanRelAll BreakProofs ScanBrk ScanBrkParse ScanBrkAll ScanFuelBufAll.
 Open Scope N_scope.
 
 Lemma run_buf_is_run_str (orig : list N) cap :
@@ -46,3 +49,36 @@ Proof.
   intros H1 H2 Hx F1 F2. rewrite (run_buf_is_run_str x cap1 H1 F1), (run_buf_is_run_str (cr x) cap2 H2 F2).
   exact (pipeline_cr_total x Hx).
 Qed.
+
+(* ---------------- the same, unconditionally (ScanFuelBufAll.pipeline_backends_equal) ---------------- *)
+Theorem pipeline_positions_true_buffered_total (orig : list N) cap :
+  (8 <= cap)%nat -> Forall (fun c => c <> 0%N) orig ->
+  let '(evs, r) := run_buf cap orig in
+  Forall (fun es => true_span orig (snd es)) evs
+  /\ (forall site m, r = PScanErr site m -> site <> 0%N -> true_mark orig m)
+  /\ (forall site m, r = PParseErr site m -> true_mark orig m).
+Proof.
+  intros Hc Hz. rewrite (pipeline_backends_equal cap orig Hc). exact (pipeline_positions_true orig Hz).
+Qed.
+
+Theorem pipeline_crlf_buffered_total (x : list chr) cap1 cap2 :
+  (8 <= cap1)%nat -> (8 <= cap2)%nat -> nocr x ->
+  Forall2 EVR (fst (run_buf cap1 x)) (fst (run_buf cap2 (crlf x)))
+  /\ PER (snd (run_buf cap1 x)) (snd (run_buf cap2 (crlf x))).
+Proof.
+  intros H1 H2 Hx. rewrite (pipeline_backends_equal cap1 x H1), (pipeline_backends_equal cap2 (crlf x) H2).
+  exact (pipeline_crlf_total x Hx).
+Qed.
+
+Theorem pipeline_cr_buffered_total (x : list chr) cap1 cap2 :
+  (8 <= cap1)%nat -> (8 <= cap2)%nat -> nocr x ->
+  Forall2 EVR (fst (run_buf cap1 x)) (fst (run_buf cap2 (cr x)))
+  /\ PER (snd (run_buf cap1 x)) (snd (run_buf cap2 (cr x))).
+Proof.
+  intros H1 H2 Hx. rewrite (pipeline_backends_equal cap1 x H1), (pipeline_backends_equal cap2 (cr x) H2).
+  exact (pipeline_cr_total x Hx).
+Qed.
+
+Print Assumptions pipeline_positions_true_buffered_total.
+Print Assumptions pipeline_crlf_buffered_total.
+Print Assumptions pipeline_cr_buffered_total.
